@@ -43,9 +43,14 @@ func (in *Interp) binop(th *Thread, op token.Token, xt, yt types.Type, a, b Valu
 			return in.st.Bool(x.f >= y.f)
 		}
 		panic("float binop " + op.String())
-	case string, *SymStr:
+	case string, *SymStr, *LazyStr:
 		switch op {
 		case token.ADD:
+			_, la := a.(*LazyStr)
+			_, lb := b.(*LazyStr)
+			if la || lb {
+				return in.lazyConcat(a, b)
+			}
 			if sa, ok := a.(string); ok {
 				if sb, ok := b.(string); ok {
 					return sa + sb
@@ -218,7 +223,7 @@ func (in *Interp) convert(th *Thread, from, to types.Type, v Value) Value {
 	// string conversions
 	if tb, ok := tu.(*types.Basic); ok && tb.Info()&types.IsString != 0 {
 		switch x := v.(type) {
-		case string, *SymStr:
+		case string, *SymStr, *LazyStr:
 			return v
 		case Slice: // []byte or []rune -> string
 			et := fu.(*types.Slice).Elem().Underlying().(*types.Basic)
@@ -316,4 +321,21 @@ func (in *Interp) convert(th *Thread, from, to types.Type, v Value) Value {
 		return x // pointer <-> unsafe.Pointer
 	}
 	panic(fmt.Sprintf("convert %v -> %v (%T)", from, to, v))
+}
+
+
+func (in *Interp) lazyConcat(a, b Value) Value {
+	var parts []Value
+	for _, v := range []Value{a, b} {
+		if l, ok := v.(*LazyStr); ok {
+			if l.forced != nil {
+				parts = append(parts, l.forced)
+			} else {
+				parts = append(parts, l.parts...)
+			}
+		} else {
+			parts = append(parts, v)
+		}
+	}
+	return &LazyStr{parts: parts}
 }
